@@ -248,6 +248,13 @@ BASES = [
         'nc_d-400.nc_education_endowment': '25', 'nc_d-400.nc_nongame_endangered_wildlife': '10',
         '1040.apply_to_estimated_tax': '100',
     })),
+    # Form 8606 with Part II only (a Roth conversion): Parts I and III are mapped to boxes but never computed
+    Base('B25-roth-conversion-only', ['1040'], dict(W2, **{
+        '1040.number_1099-r': '1', '1099-r:0.box_1': '6500', '1099-r:0.box_2a': '6500', '1099-r:0.box_7_ira_sep_simple': 'yes',
+        '1099-r:0.box_2b_taxable_not_determined': 'yes', '1099-r:0.belongs_to': 'taxpayer',
+        '1040.ira_exception2_you': 'yes', '8606:you.part_1_needed': 'no', '8606:you.part_2_needed': 'yes', '8606:you.part_3_needed': 'no',
+        '8606:you.net_converted': '6500', '8606:you.converted_cost_basis': '6000',
+    })),
     Base('B7-dense', ['1040'], {
         '1040.number_w-2': '2', 'w-2:1.belongs_to': 'spouse', '1040.filing_status': 'MarriedFilingJointly',
         '1040.number_1099-int': '1', '1040.number_1099-div': '1', '1040.number_1099-g': '1', '1040.number_1098': '1',
